@@ -24,6 +24,8 @@ static FILE* T;
 #define MAXF ((size_t)6 << 20)           /* largest frame */
 static unsigned char *frame, *content, *out, *lits, *blk; static size_t frameSize, contentSize;
 static fa_t F;
+static const unsigned char* g_dict = NULL; static size_t g_dictSize = 0; static ZSTD_DDict* g_ddict = NULL;     /* raw-content dictionary of the current frame (NULL: none) */
+static unsigned char* dictBuf;
 static fa_seq seqs[70000];
 #define PAGE 4096
 typedef struct { unsigned char* map; size_t mapSize; unsigned char* p; size_t size; } gbuf;
@@ -73,6 +75,8 @@ static int build_frame(const char* family, unsigned seed, finfo* fi) {
     wexp = isBig ? 15 + fa_pick(&F, 3) : (isLong || isSplit) ? 7 + fa_pick(&F, 4) : fa_pick(&F, 9); wmant = fa_pick(&F, 3) ? 0 : fa_pick(&F, 8);
     window = ((size_t)1 << (10 + wexp)); window += (window >> 3) * wmant;
     checksum = isTail ? 0 : fa_pick(&F, 3) == 0;
+    g_dict = NULL; g_dictSize = 0;
+    if ((!strcmp(family, "mixed") || isRep || !strcmp(family, "dict")) && (fa_pick(&F, 4) == 0 || !strcmp(family, "dict"))) { g_dictSize = 1 + fa_pick(&F, 3) * 997 + fa_pick(&F, 60000); fa_gen_literals(&F, dictBuf, g_dictSize, fa_rnd(&F) & 1); if (g_dictSize >= 4 && dictBuf[0] == 0x37 && dictBuf[1] == 0xA4) dictBuf[0] = 0; g_dict = dictBuf; F.dictContent = g_dictSize; }
     if (isTail) { wexp = 5 + fa_pick(&F, 3); wmant = 0; window = (size_t)1 << (10 + wexp); }
     nb = isTail ? 1 : isHdr ? 1 + (int)fa_pick(&F, 2) : isBig ? 0 : 1 + (int)fa_pick(&F, 6);
     F.windowSize = window; F.blockMax = window < 131072 ? window : 131072;
@@ -141,7 +145,7 @@ static int build_comp_frame(unsigned seed, finfo* fi) {
     if (RX % 7 == 0) ZSTD_CCtx_setParameter(c, ZSTD_c_enableLongDistanceMatching, 1); if (RX % 5 == 0) ZSTD_CCtx_setParameter(c, ZSTD_c_contentSizeFlag, 0);
     if ((int)(RX % 22) > 15 && n > 150000) n = 150000;
     r = ZSTD_compress2(c, frame, MAXF, content, n); ZSTD_freeCCtx(c); if (ZSTD_isError(r)) return 0; frameSize = r;
-    memset(&F, 0, sizeof(F)); fi->family = "comp"; fi->seed = seed; fi->nblocks = 0; fi->fcsBytes = -1; fi->singleSeg = -1; fi->checksum = -1; fi->wexp = 0; fi->wmant = 0; return 1;
+    g_dict = NULL; g_dictSize = 0; memset(&F, 0, sizeof(F)); fi->family = "comp"; fi->seed = seed; fi->nblocks = 0; fi->fcsBytes = -1; fi->singleSeg = -1; fi->checksum = -1; fi->wexp = 0; fi->wmant = 0; return 1;
 }
 
 /* frames of the legacy formats (v0.5 - v0.7 are decoded by this build), taken from the repository's own tests/legacy.c */
@@ -156,7 +160,7 @@ static int build_legacy_frame(unsigned seed, finfo* fi) {
             if (q[1] == 0xB5 && q[2] == 0x2F && q[3] == 0xFD && q[0] >= 0x25 && q[0] <= 0x28) { size_t fs = ZSTD_findFrameCompressedSize(q, COMPRESSED_SIZE - pos); if (!ZSTD_isError(fs) && fs > 0) { starts[nfr] = pos; sizes[nfr] = fs; nfr++; pos += fs - 1; } } } }
     if (nfr == 0) return 0;
     { int k = (int)(seed % (unsigned)nfr); memcpy(frame, COMPRESSED + starts[k], sizes[k]); frameSize = sizes[k]; }
-    memset(&F, 0, sizeof(F)); fi->family = "legacy"; fi->seed = seed; fi->nblocks = 0; fi->fcsBytes = -1; fi->singleSeg = -1; fi->checksum = -1; fi->wexp = 0; fi->wmant = 0; return 1;
+    g_dict = NULL; g_dictSize = 0; memset(&F, 0, sizeof(F)); fi->family = "legacy"; fi->seed = seed; fi->nblocks = 0; fi->fcsBytes = -1; fi->singleSeg = -1; fi->checksum = -1; fi->wexp = 0; fi->wmant = 0; return 1;
 }
 /* a few bytes of RLE blocks regenerating far more than the window: what a static streaming decoder must refuse or contain */
 static int build_rlebig_frame(unsigned seed, finfo* fi) {
@@ -166,7 +170,7 @@ static int build_rlebig_frame(unsigned seed, finfo* fi) {
     total = window + 131072 + RY % 400000; pos = 0;
     hs = fa_frame_header(hdr, total, (RY & 1) ? 0 : 8, 0, wexp, wmant, 0, 0, 0, 0); memcpy(frame, hdr, hs); pos = hs;
     { size_t left = total; size_t bmax = window < 131072 ? window : 131072; while (left > 0) { size_t s2 = left > bmax ? bmax : left; if (RY % 4 == 0 && s2 > 1) s2 = 1 + RY % s2; fa_block_header(frame + pos, left == s2, 1, (unsigned)s2); frame[pos + 3] = (unsigned char)RY; pos += 4; left -= s2; nb++; if (pos + 8 > MAXF) return 0; } }
-    frameSize = pos; memset(&F, 0, sizeof(F)); F.fRleBlk = (unsigned)nb; fi->family = "rlebig"; fi->seed = seed; fi->nblocks = nb; fi->fcsBytes = 0; fi->singleSeg = 0; fi->checksum = 0; fi->wexp = wexp; fi->wmant = wmant; return 1;
+    g_dict = NULL; g_dictSize = 0; frameSize = pos; memset(&F, 0, sizeof(F)); F.fRleBlk = (unsigned)nb; fi->family = "rlebig"; fi->seed = seed; fi->nblocks = nb; fi->fcsBytes = 0; fi->singleSeg = 0; fi->checksum = 0; fi->wexp = wexp; fi->wmant = wmant; return 1;
 }
 
 /* ------------------------------------------------------------------ decode paths */
@@ -186,7 +190,10 @@ static size_t run_path(int k, const unsigned char* src, size_t n, unsigned char*
         if (!d) { gfree(&gws); return (size_t)-ZSTD_error_memory_allocation; } }
     else d = (k == 9) ? g_reused : ZSTD_createDCtx();
     ZSTD_DCtx_reset(d, ZSTD_reset_session_only); ZSTD_DCtx_setParameter(d, ZSTD_d_windowLogMax, 30);
-    if (k == 0 || k == 1 || k == 9 || k == 11) r = ZSTD_decompressDCtx(d, dst, cap, src, n);
+    if (g_dict && k != 7 && k != 8) { if (k == 0 || k == 11) { } else if (k & 1) ZSTD_DCtx_refDDict(d, g_ddict); else ZSTD_DCtx_loadDictionary(d, g_dict, g_dictSize); }   /* cold on first use, warm afterwards */
+    else if (k == 9) ZSTD_DCtx_refDDict(d, NULL);
+    if (g_dict && (k == 0 || k == 11)) r = (k == 0) ? ZSTD_decompress_usingDict(d, dst, cap, src, n, g_dict, g_dictSize) : ZSTD_decompress_usingDDict(d, dst, cap, src, n, g_ddict);
+    else if (k == 0 || k == 1 || k == 9 || k == 11) r = ZSTD_decompressDCtx(d, dst, cap, src, n);
     else if ((k >= 2 && k <= 6) || k == 10 || k == 12) { ZSTD_inBuffer in; ZSTD_outBuffer ob; unsigned x = seed * 747796405u + 1; size_t fed = 0; int guard = 0; int idle = 0; size_t hint = 1;
         if (k == 6) ZSTD_DCtx_setParameter(d, ZSTD_d_stableOutBuffer, 1);
         in.src = src; in.size = 0; in.pos = 0; ob.dst = dst; ob.size = (k == 6) ? cap : 0; ob.pos = 0; r = 1;
@@ -212,7 +219,7 @@ static size_t run_path(int k, const unsigned char* src, size_t n, unsigned char*
         if (!ZSTD_isError(r)) { if (*stall || r != 0) r = (size_t)-ZSTD_error_srcSize_wrong; else r = ob.pos; } }
     if (k == 12) { gfree(&gws); return r; }
     else if (k == 7) {      /* buffer-less: ZSTD_decompressBegin / nextSrcSizeToDecompress / decompressContinue; output must be contiguous */
-        size_t ip = 0, op = 0; ZSTD_decompressBegin(d);
+        size_t ip = 0, op = 0; if (g_dict) ZSTD_decompressBegin_usingDict(d, g_dict, g_dictSize); else ZSTD_decompressBegin(d);
         for (;;) { size_t want = ZSTD_nextSrcSizeToDecompress(d); size_t w;
             if (want == 0) { if (ip < n) { ZSTD_decompressBegin(d); want = ZSTD_nextSrcSizeToDecompress(d); } else break; }
             if (ip + want > n) { r = (size_t)-ZSTD_error_srcSize_wrong; break; }
@@ -222,19 +229,19 @@ static size_t run_path(int k, const unsigned char* src, size_t n, unsigned char*
         size_t margin = ZSTD_decompressionMargin(src, n); unsigned long long cs = ZSTD_findDecompressedSize(src, n);
         if (ZSTD_isError(margin) || cs == ZSTD_CONTENTSIZE_ERROR) r = (size_t)-ZSTD_error_GENERIC;
         else { size_t want = (cs == ZSTD_CONTENTSIZE_UNKNOWN) ? contentSize : (size_t)cs; size_t total = want + margin; unsigned char* b = malloc(total + 1); memcpy(b + total - n, src, n);
-            r = ZSTD_decompressDCtx(d, b, total, b + total - n, n); if (!ZSTD_isError(r) && r <= cap) memcpy(dst, b, r); free(b); } }
+            r = g_dict ? ZSTD_decompress_usingDict(d, b, total, b + total - n, n, g_dict, g_dictSize) : ZSTD_decompressDCtx(d, b, total, b + total - n, n); if (!ZSTD_isError(r) && r <= cap) memcpy(dst, b, r); free(b); } }
     (void)haveWs; if (k != 9) ZSTD_freeDCtx(d);
     return r;
 }
 
 static void do_frame(const finfo* fi, int idx) {
     size_t ref; int k, bad = 0, npaths = 0; unsigned before[5] = { hk_prefetch, hk_split, hk_litInDst, hk_litExtra, hk_blocks };
-    REF_set_verify_checksum(fi->checksum != 1); ref = REF_decode_all(content, MAXC, frame, frameSize, NULL, 0); REF_set_verify_checksum(1);
+    REF_set_verify_checksum(fi->checksum != 1); ref = REF_decode_all(content, MAXC, frame, frameSize, g_dict, g_dictSize); REF_set_verify_checksum(1);
     if (ref == (size_t)-1) { fprintf(T, "{\"e\":\"frame\",\"family\":\"%s\",\"seed\":%u,\"idx\":%d,\"accepted\":false,\"why\":\"%.80s\",\"csize\":%zu}\n", fi->family, fi->seed, idx, REF_last_error(), frameSize); return; }
     contentSize = ref;
     if (fi->checksum == 1) { uint64_t h = REF_xxh64(content, contentSize, 0); frame[frameSize - 4] = (unsigned char)h; frame[frameSize - 3] = (unsigned char)(h >> 8); frame[frameSize - 2] = (unsigned char)(h >> 16); frame[frameSize - 1] = (unsigned char)(h >> 24); }
     g_badPath = ""; g_badErr[0] = 0; memset(hk_seen, 0, sizeof(hk_seen));
-    if (frameSize < 3000 && contentSize < 200000) { REF_set_trace(T, 1); REF_decode_all(content, MAXC, frame, frameSize, NULL, 0); REF_set_trace(NULL, 0); }    /* R's own events, for the format model */
+    if (frameSize < 3000 && contentSize < 200000) { REF_set_trace(T, 1); REF_decode_all(content, MAXC, frame, frameSize, g_dict, g_dictSize); REF_set_trace(NULL, 0); }    /* R's own events, for the format model */
     for (k = 0; k < NPATH; k++) { size_t cap = (k == 0) ? contentSize : contentSize + 1 + (fi->seed % 300); size_t r; int stall, over;
         if (contentSize > ((size_t)8 << 20) && (k == 3 || k == 5)) continue;        /* (byte-wise feeding of very large frames: skipped) */
         if (k == 3 && frameSize > 300000) continue;
@@ -242,13 +249,13 @@ static void do_frame(const finfo* fi, int idx) {
         g_staticExact = 1;
         r = run_path(k, frame, frameSize, out, cap, fi->seed + (unsigned)k, &stall, &over); npaths++;
         if (ZSTD_isError(r) || r != contentSize || memcmp(out, content, contentSize) || over) { if (!bad) { g_badPath = pathNames[k]; snprintf(g_badErr, sizeof(g_badErr), "%s", ZSTD_isError(r) ? ZSTD_getErrorName(r) : over ? "pos beyond size" : r != contentSize ? "wrong size" : "wrong bytes"); } bad++; } }
-    { unsigned key; for (key = 0; key < 128; key++) if (hk_seen[key]) fprintf(T, "{\"e\":\"dblk\",\"prefetch\":%u,\"loc\":%u,\"nseqBig\":%u,\"litBig\":%u,\"histBig\":%u,\"longOff\":%u}\n", key & 1, (key >> 1) & 3, (key >> 3) & 1, (key >> 4) & 1, (key >> 5) & 1, (key >> 6) & 1); }
+    { unsigned key; for (key = 0; key < 128; key++) if (hk_seen[key]) fprintf(T, "{\"e\":\"dblk\",\"prefetch\":%u,\"loc\":%u,\"nseqBig\":%u,\"litBig\":%u,\"histBig\":%u,\"longOff\":%u,\"dict\":%d}\n", key & 1, (key >> 1) & 3, (key >> 3) & 1, (key >> 4) & 1, (key >> 5) & 1, (key >> 6) & 1, g_dict != NULL); }
     fprintf(T, "{\"e\":\"frame\",\"family\":\"%s\",\"seed\":%u,\"idx\":%d,\"accepted\":true,\"size\":%zu,\"csize\":%zu,\"blocks\":%d,\"fcs\":%d,\"single\":%d,\"csum\":%d,\"wexp\":%u,\"wmant\":%u,\"npaths\":%d,\"bad\":%d,\"badPath\":\"%s\",\"badErr\":\"%s\","
             "\"litRaw\":%u,\"litRle\":%u,\"litHuf\":%u,\"litTreeless\":%u,\"mPredef\":%u,\"mRle\":%u,\"mFse\":%u,\"mRepeat\":%u,\"seq0\":%u,\"seqLong\":%u,\"nonMin\":%u,\"maxSym\":%u,\"longLL\":%u,\"longML\":%u,\"rawBlk\":%u,\"rleBlk\":%u,\"cmpBlk\":%u,"
-            "\"hkBlocks\":%u,\"hkPrefetch\":%u,\"hkSplit\":%u,\"hkLitInDst\":%u,\"hkLitExtra\":%u}\n",
+            "\"dict\":%zu,\"hkBlocks\":%u,\"hkPrefetch\":%u,\"hkSplit\":%u,\"hkLitInDst\":%u,\"hkLitExtra\":%u}\n",
             fi->family, fi->seed, idx, contentSize, frameSize, fi->nblocks, fi->fcsBytes, fi->singleSeg, fi->checksum, fi->wexp, fi->wmant, npaths, bad, g_badPath, g_badErr,
             F.fLit[0], F.fLit[1], F.fLit[2], F.fLit[3], F.fMode[0][0] + F.fMode[1][0] + F.fMode[2][0], F.fMode[0][1] + F.fMode[1][1] + F.fMode[2][1], F.fMode[0][2] + F.fMode[1][2] + F.fMode[2][2], F.fMode[0][3] + F.fMode[1][3] + F.fMode[2][3],
-            F.fSeq0, F.fSeqLong, F.fNonMin, F.fMaxSym, F.fLongLL, F.fLongML, F.fRawBlk, F.fRleBlk, F.fCmpBlk,
+            F.fSeq0, F.fSeqLong, F.fNonMin, F.fMaxSym, F.fLongLL, F.fLongML, F.fRawBlk, F.fRleBlk, F.fCmpBlk, g_dictSize,
             hk_blocks - before[4], hk_prefetch - before[0], hk_split - before[1], hk_litInDst - before[2], hk_litExtra - before[3]);
     if (bad && getenv("DECDRV_DUMP")) { char nm[300]; FILE* D; snprintf(nm, sizeof(nm), "%s.%s.%u.zst", getenv("DECDRV_DUMP"), fi->family, fi->seed); D = fopen(nm, "wb"); if (D) { fwrite(frame, 1, frameSize, D); fclose(D); } }
 }
@@ -258,7 +265,7 @@ static char g_op[256];
 static void do_mutations(const finfo* fi, int idx, int nmut) {
     static unsigned char* orig = NULL; size_t osz = frameSize; int m; unsigned x = fi->seed * 2246822519u + 17; int nErr = 0, nOk = 0, nOver = 0, nStall = 0, nWrongOk = 0; size_t ref;
     if (!orig) orig = malloc(MAXF);
-    REF_set_verify_checksum(fi->checksum != 1); ref = REF_decode_all(content, MAXC, frame, frameSize, NULL, 0); REF_set_verify_checksum(1); contentSize = (ref == (size_t)-1) ? 0 : ref;
+    REF_set_verify_checksum(fi->checksum != 1); ref = REF_decode_all(content, MAXC, frame, frameSize, g_dict, g_dictSize); REF_set_verify_checksum(1); contentSize = (ref == (size_t)-1) ? 0 : ref;
     if (fi->checksum == 1 && ref != (size_t)-1) { uint64_t h = REF_xxh64(content, contentSize, 0); frame[frameSize - 4] = (unsigned char)h; frame[frameSize - 3] = (unsigned char)(h >> 8); frame[frameSize - 2] = (unsigned char)(h >> 16); frame[frameSize - 1] = (unsigned char)(h >> 24); }
     memcpy(orig, frame, osz);
     if (osz > 400000) return;
@@ -313,13 +320,15 @@ int main(int argc, char** argv) {
 #ifdef ZSTD_VERIF_TRACE
     ZSTD_verif_hook = hook_cb;
 #endif
-    frame = malloc(MAXF + 4096); content = malloc(MAXC + 64); out = malloc(MAXC + 70000 + 4096); lits = malloc(300000); blk = malloc(500000); g_reused = ZSTD_createDCtx();
+    frame = malloc(MAXF + 4096); content = malloc(MAXC + 64); out = malloc(MAXC + 70000 + 4096); lits = malloc(300000); blk = malloc(500000); dictBuf = malloc(200000); g_reused = ZSTD_createDCtx();
     while (fgets(line, sizeof(line), S)) { char cmd[16], fam[24]; unsigned seed; int count, nmut = 0, i;
         if (sscanf(line, "%15s %23s %u %d %d", cmd, fam, &seed, &count, &nmut) < 4) continue;
         for (i = 0; i < count; i++) { finfo fi; int ok = !strcmp(fam, "comp") ? build_comp_frame(seed + (unsigned)i, &fi) : !strcmp(fam, "legacy") ? build_legacy_frame(seed + (unsigned)i, &fi) : !strcmp(fam, "rlebig") ? build_rlebig_frame(seed + (unsigned)i, &fi) : build_frame(fam, seed + (unsigned)i, &fi);
             if (!ok) { fprintf(T, "{\"e\":\"frame\",\"family\":\"%s\",\"seed\":%u,\"idx\":%d,\"accepted\":false,\"why\":\"not assembled\",\"csize\":0}\n", fam, seed + (unsigned)i, i); continue; }
+            g_ddict = g_dict ? ZSTD_createDDict(g_dict, g_dictSize) : NULL;
             if (!strcmp(cmd, "GEN")) do_frame(&fi, i); else if (!strcmp(cmd, "MUT")) do_mutations(&fi, i, nmut);
-            else if (!strcmp(cmd, "DUMP")) { char nm[300]; FILE* D; snprintf(nm, sizeof(nm), "%s.%s.%u.zst", argv[2], fam, seed + (unsigned)i); D = fopen(nm, "wb"); if (D) { fwrite(frame, 1, frameSize, D); fclose(D); } } }
+            if (g_ddict && strcmp(cmd, "DUMP")) { ZSTD_freeDDict(g_ddict); g_ddict = NULL; }
+            if (!strcmp(cmd, "DUMP")) { char nm[300]; FILE* D; snprintf(nm, sizeof(nm), "%s.%s.%u.zst", argv[2], fam, seed + (unsigned)i); D = fopen(nm, "wb"); if (D) { fwrite(frame, 1, frameSize, D); fclose(D); } } }
     }
     fprintf(T, "{\"e\":\"end\"}\n"); fclose(T);
     return 0;
